@@ -96,29 +96,55 @@ class StageP:
             names += [prefix + m for m in re.findall(r'^theorem\s+([A-Za-z0-9_\.\']+)', src, re.M)]
         return names
 
+    def closure(self, roots):
+        """modules of this Lake package reachable through `import` from the given module names -> {module: path}"""
+        seen = {}
+        todo = list(roots)
+        while todo:
+            m = todo.pop()
+            if m in seen:
+                continue
+            path = os.path.join(LEAN, *m.split('.')) + '.lean'
+            if not os.path.exists(path):
+                continue
+            seen[m] = path
+            for imp in re.findall(r'^import\s+(\S+)', strip_lean_comments(open(path).read()), re.M):
+                todo.append(imp)
+        return seen
+
     def run(self):
         t0 = time.time()
-        from . import extract
+        from . import extract, py2lean
         try:
             extract.write_extracted()
         except Exception as e:  # extraction failure = the tie to the source is broken
             self.errors.append('extract: %r' % (e,))
-        rc, out = run_cmd(['lake', 'build', 'Asn1Model', 'Asn1Proofs', 'driver'], cwd=LEAN)
+        translate_error = None
+        try:
+            py2lean.write_translated(LEAN, REPO)
+        except Exception as e:  # the source left the translated subset (or a target disappeared)
+            translate_error = 'translate (harness/py2lean.py): %r' % (e,)
+        prop_modules = ['Asn1Proofs.Properties.%s' % os.path.basename(pf)[:-5] for pf in self.property_files()]
+        reach = self.closure(prop_modules + ['Main'])
+        from . import trcheck
+        self.uses_translated = 'Asn1Model.Translated' in reach or self.prop in trcheck.TR_PREFIXES
+        targets = ['driver'] + prop_modules
+        if self.uses_translated:
+            targets.append('trdriver')
+            if translate_error:
+                self.errors.append(translate_error)
+        rc, out = run_cmd(['lake', 'build'] + targets, cwd=LEAN)
         self.log += out[-4000:]
         if rc != 0:
             self.errors.append('lake build failed')
             failing = re.findall(r'error: (\S+\.lean):(\d+)', out)
             self.errors += ['%s:%s' % f for f in failing[:10]]
-        # forbidden constructs
-        for root, _, files in os.walk(LEAN):
-            if '.lake' in root:
-                continue
-            for f in files:
-                if f.endswith('.lean'):
-                    body = strip_lean_comments(open(os.path.join(root, f)).read())
-                    for ln in body.splitlines():
-                        if FORBIDDEN.search(ln):
-                            self.errors.append('forbidden construct in %s: %s' % (f, ln.strip()[:80]))
+        # forbidden constructs, in every module the property theorems and the driver depend on
+        for m, path in sorted(reach.items()):
+            body = strip_lean_comments(open(path).read())
+            for ln in body.splitlines():
+                if FORBIDDEN.search(ln):
+                    self.errors.append('forbidden construct in %s: %s' % (os.path.basename(path), ln.strip()[:80]))
         try:
             self.obligations = self.theorem_names()
         except Exception as e:
@@ -376,8 +402,8 @@ def finish(ctx, t0, level='proof'):
     coverage = {
         'obligations': len(sp.obligations) if sp else 0,
         'discharged': len(sp.discharged) if sp else 0,
-        'checker_cmd': 'cd lean && lake build Asn1Model Asn1Proofs driver && lake env lean .lake/audit_%s.lean  (#print axioms of every theorem in Asn1Proofs/Properties/%s.lean)%s'
-                       % (prop, prop, ' && lake env leanchecker Asn1Proofs.Properties.%s' % prop if ctx.tier == 'thorough' else ''),
+        'checker_cmd': 'cd lean && lake build driver Asn1Proofs.Properties.%s* && lake env lean .lake/audit_%s.lean  (#print axioms of every theorem in Asn1Proofs/Properties/%s.lean)%s'
+                       % (prop, prop, prop, ' && lake env leanchecker Asn1Proofs.Properties.%s' % prop if ctx.tier == 'thorough' else ''),
         'trusted_base': (['Lean 4.33.0 kernel', 'axioms used by the property theorems: %s' % (sp.used_axioms() if sp else [])]
                          + ctx.assumptions),
         'theorems': sp.obligations if sp else [],
